@@ -13,7 +13,8 @@ a loop handles *every* element and that nothing is dropped or handled twice on s
   BUCKETS          NodeBuckets: takeLeaves returns a copy of bucket 1 and empties it; moveNode erases from the old bucket exactly when it
                    inserts into the new one; severNodes moves every former neighbour of every severed node one bucket down and removes
                    the severed nodes from the graph
-  COMPONENTS       Graph::getConnComps: every node still in `remaining` starts a component; a node is erased from `remaining` on every
+  TREE-TRANSFORMS  (shared with C14) Tree::flip / translate keep bounds, per-rank bounds and nodes together
+  COMPONENTS       Graph::getConnComps: the breadth-first queue is drained; every node still in `remaining` starts a component; a node is erased from `remaining` on every
                    path on which it is added to a component (no node in two components); every edge taken from the queue is added
                    unless present; every finished component is pushed to the result
 Not decided: acyclicity of the trees, degree conditions of the core, symmetric tree layout, planarisation.
@@ -269,6 +270,16 @@ def rule_components(chk, prog):
                 if g.search("entry", blocked=[ei], targets=[ai]) is not None and a_ is addn[0]:
                     bad = bad or "the seed node of a component is not removed from `remaining`"
     (r.bad if bad else r.ok)("a placed node leaves `remaining`", fn.loc(addn[0]) if addn else fn.loc(wl), bad or "")
+    inner = [n for n in walk(wl["body"]) if n.get("k") == "WhileStmt" and "bfs_queue.empty()" in norm(n.get("cond"))]
+    r.count()
+    bad = None
+    if len(inner) != 1:
+        bad = "the breadth-first loop over the queue is not recognised"
+    elif any(x.get("k") in ("BreakStmt", "ReturnStmt", "GotoStmt") for x in _walk_no_lambda(inner[0]["body"])):
+        bad = "the breadth-first loop can stop while (edge, node) pairs are still queued: their edges are never added to the component"
+    elif norm(inner[0]["cond"]) not in ("!bfs_queue.empty()",):
+        bad = "the breadth-first loop runs while `%s`, not until the queue is empty" % norm(inner[0]["cond"])
+    (r.bad if bad else r.ok)("queue drained", fn.loc(inner[0]) if inner else fn.loc(wl), bad or "")
     pb = [c for c in walk(wl["body"]) if c.get("cname", "").endswith("::push_back") and norm(call_object(c)) == "comps"]
     r.count()
     if len(pb) != 1 or g.iteration_can_skip(wl, [_stmt_id(fn, g, pb[0])]) is not None or norm(call_args(pb[0])[0]) != "new_comp":
@@ -286,6 +297,19 @@ def rule_components(chk, prog):
         if len(ats) != 1 or "hasEdge(e" not in ats[0] or not entails(("not", ("atom", ats[0])), _drop_empty(pc)):
             bad = "an edge taken from the queue is added only under %s" % show(pc)[:140]
     (r.bad if bad else r.ok)("every reached edge added once", fn.loc(ade[0]) if ade else fn.loc(wl), bad or "")
+
+
+def _walk_no_lambda(n):
+    from ..facts import children
+    stack = [n]
+    while stack:
+        x = stack.pop()
+        if x is None:
+            continue
+        yield x
+        if x.get("k") == "LambdaExpr":
+            continue
+        stack.extend(children(x))
 
 
 def _drop_empty(f):
@@ -307,3 +331,5 @@ def run(chk):
     rule_stems(chk, prog)
     rule_buckets(chk, prog)
     rule_components(chk, prog)
+    from .c14 import rule_tree_flip
+    rule_tree_flip(chk, prog)          # bounds of a flipped / translated tree: what keeps sibling trees off each other
